@@ -120,9 +120,18 @@ def run_case(case, ctx):
             kwargs['guard_time'] = case.get('guard_notation', guard)
         if case.get('stop_data'):
             kwargs['stop_data'] = dict(STOP_DATA)
+        def result_filter(data):
+            # fault injection: the delivery of ONE run's result event fails inside the output
+            # task (start mode only: there the failure stays within that task)
+            put = data.get('put') or {}
+            if put.get('value') == case.get('result_fault'):
+                hist.log('result_fault', put.get('value'))
+                raise RunError('vf: result event filter failed')
+            return True
         oa = edzed.OutputAsync(
             'oa', coro=coro_callable if case.get('sync_raise') else coro,
-            mode=case.get('mode_name', mode), on_success=edzed.Event(ok),
+            mode=case.get('mode_name', mode),
+            on_success=edzed.Event(ok, efilter=result_filter if 'result_fault' in case else None),
             on_error=edzed.Event(err), on_cancel=edzed.Event(cnc),
             on_output=edzed.Event(outp), stop_timeout=case.get('stop_timeout', 100), **kwargs)
         state['oa'] = oa
@@ -182,6 +191,30 @@ def run_case(case, ctx):
         hist.log('stop_called')
         await sim.stop()
 
+    async def run_main(loop):
+        # the circuit is run by edzed.run() with a supporting coroutine; the stop is requested
+        # from elsewhere (as SIGTERM or a 'shutdown' event would) and the supporting coroutine
+        # ends a little later, while the clean-up is in progress
+        edzed.reset_circuit()
+        objs = build()
+        circuit = edzed.get_circuit()
+        sim = harness.Sim()
+        state['sim'] = sim
+
+        async def supporting():
+            await asyncio.sleep(case['stop'] + 0.25)
+            hist.log('supporting_task_ends')
+        sim.task = asyncio.create_task(edzed.run(supporting()), name='vf: runtask')
+        await asyncio.sleep(0)      # run() creates the simulation task ...
+        await asyncio.sleep(0)      # ... which registers itself when it begins to run
+        await circuit.wait_init()
+        await drive(sim, objs)
+        circuit.abort(asyncio.CancelledError('vf: stop requested'))
+        try:
+            await sim.task
+        except BaseException as err:    # pylint: disable=broad-except
+            state['run_exc'] = err
+
     def setup(loop):
         hist.loop = loop
         lat = case.get('latency')
@@ -189,7 +222,13 @@ def run_case(case, ctx):
             rng = ctx.rng('lat', core.case_hash(case))
             loop.latency = lambda: rng.random() * lat
 
-    if case.get('preinit_stop'):
+    if case.get('via_run'):
+        ctx.count('run_with_supporting_task_ending_during_cleanup')
+        loop, _r, exc = vloop.run(run_main, setup=setup, drain=30.0)
+        edzed.reset_circuit()
+        out = {'loop': loop, 'started': True, 'exc': exc or state.get('run_exc'),
+               'sim': state['sim']}
+    elif case.get('preinit_stop'):
         loop, _r, exc = vloop.run(preinit_main, setup=setup, drain=30.0)
         edzed.reset_circuit()
         out = {'loop': loop, 'started': True, 'exc': exc, 'sim': state['sim']}
@@ -292,7 +331,12 @@ def judge(case, hist, state, ctx):
                                  f"{where}: output {state['final_output']} after the (timed out) stop")
         return True
     # ---- R1: exactly one result per accepted put ----
+    faulted = {e[3] for e in E if e[2] == 'result_fault'}
+    if faulted:
+        ctx.count('result_event_faults')
     for uid in accepted:
+        if uid in faulted:
+            continue        # its (only) result event was consumed by the injected fault
         if uid not in results:
             raise core.Violation(
                 'put-without-result',
@@ -544,6 +588,12 @@ def gen(ctx):
                 'stop': rng.choice([times[-1] + 0.25, times[-1] + 1.5, 14.0, times[0] + 0.5])}
         if rng.random() < 0.2:
             case['sync_raise'] = True
+        if mode == 'start' and rng.random() < 0.3:
+            ok_uids = [u for u, p in enumerate(case['puts']) if not p[2]]
+            if ok_uids:
+                case['result_fault'] = rng.choice(ok_uids)
+        if rng.random() < 0.15:
+            case['via_run'] = True
         r = rng.random()
         if r < 0.2:
             case['latency'] = rng.choice([1e-4, 2e-3])
